@@ -35,9 +35,13 @@ def bdims (a b : List Nat) : List Nat := (bdimsRev a.reverse b.reverse).reverse
 def proj (dims idx : List Nat) : List Nat :=
   (dims.zip (idx.drop (idx.length - dims.length))).map (fun p => if p.1 == 1 then 0 else p.2)
 
+/-- Element-wise operation with output dimensions `D`: the element at `idx` is `f` of the operands'
+    elements at the projected indices. -/
+def specEwise' (f : S → S → S) (a b : Tensor S) (D : List Nat) : Tensor S :=
+  Tensor.ofFn D (fun idx => f (a.get (proj a.dims idx)) (b.get (proj b.dims idx)))
+
 /-- Element-wise operation under right-aligned broadcasting. -/
-def specEwise (f : S → S → S) (a b : Tensor S) : Tensor S :=
-  Tensor.ofFn (bdims a.dims b.dims) (fun idx => f (a.get (proj a.dims idx)) (b.get (proj b.dims idx)))
+def specEwise (f : S → S → S) (a b : Tensor S) : Tensor S := specEwise' f a b (bdims a.dims b.dims)
 
 /-- Sum of a delta over the broadcast positions of an operand of dimensions `dims` (C03). -/
 def sumBroadcast (d : Tensor S) (dims : List Nat) : Tensor S :=
